@@ -1709,6 +1709,7 @@ class Stream(AbstractStream):
                 phase, = phases
                 imol = other._imol.get_phase(phase)
             else:
+                self.empty()
                 self.phases = other.phases
                 imol = other._imol
         else:
